@@ -318,6 +318,9 @@ class Machine(object):
         if isinstance(p.region, tuple):
             self.undecided('%s through a function pointer' % what)
         r = self.w.regions.get(p.region)
+        if r is None and isinstance(p.region, str) and p.region.startswith('@'):
+            # a pointer read from the (cached) initialiser of a constant global: materialise the pointee on demand
+            r = self.global_region(p.region[1:])
         if r is None:
             self.undecided('%s through pointer into unknown region %r' % (what, p.region))
         return r
@@ -817,6 +820,11 @@ class Machine(object):
             return B.v_top(w)
         if isinstance(a, Ptr) or isinstance(b, Ptr):
             return B.v_top(w)
+        if op == 'sub' and isinstance(a, tuple) and isinstance(b, tuple):
+            # difference of two symbolic addresses inside the same object: the base cancels exactly
+            pa, pb = self.ptrints.get(B.to_bits(a, w)), self.ptrints.get(B.to_bits(b, w))
+            if pa is not None and pb is not None and pa.region == pb.region and pa.off is not None and pb.off is not None:
+                return (pa.off - pb.off) & B.mask(w)
         if op == 'and':
             return B.v_and(a, b, w)
         if op == 'or':
